@@ -152,10 +152,13 @@ TestTearDownErr(w, s, l) ==
        THEN "C05:testTearDown-order"
   ELSE ""
 
-(* A testTearDown for a layer that already had one in a complete bracket     *)
+(* A testTearDown in a complete bracket, for a layer that already had one or *)
+(* that the bracket's test does not owe one (its layer was switched to       *)
+(* without an observable event: a layer whose only hook is testTearDown),    *)
 (* opens the bracket of a test that ran no code (decorator skip).            *)
 BrTestTearDown(w, s, l) ==
-  LET again == s.ph = "closing" /\ l \in SeqSet(s.td) /\ BracketClosedErr(w, s) = ""
+  LET again == /\ s.ph = "closing" /\ BracketClosedErr(w, s) = ""
+               /\ (l \in SeqSet(s.td) \/ (s.tl # NoLayer /\ l \notin ExpectDown(w, s)))
       s1 == IF again \/ s.ph = "idle" THEN BracketNew(s) ELSE s
   IN <<TestTearDownErr(w, s1, l),
        [s1 EXCEPT !.td = Append(s1.td, l), !.ph = "closing"]>>
